@@ -627,10 +627,72 @@ fn g8(tier: Tier) -> Vec<Case> {
     out
 }
 
+// ---- G9: the same expressions as `const` items (evaluated by the compiler, not by the program) --------
+
+fn subst(e: &Ex, a: &str, b: &str) -> Ex {
+    match e {
+        Ex::Var(n) if n == "a" => Ex::Var(a.into()),
+        Ex::Var(n) if n == "b" => Ex::Var(b.into()),
+        Ex::Bin(op, x, y) => Ex::Bin(*op, Box::new(subst(x, a, b)), Box::new(subst(y, a, b))),
+        Ex::Neg(x) => Ex::Neg(Box::new(subst(x, a, b))),
+        other => other.clone(),
+    }
+}
+
+/// For every G1 arithmetic expression: all operand pairs of B(T) x B(T) for which the reference evaluator
+/// yields a value become `const A_i, B_i` and `const C_i: T = e[A_i, B_i]`; `f()` returns the tuple of the
+/// `C_i` of one first operand. The value a `const` item denotes is the value of its expression: the
+/// reference program evaluates the same expressions at "run time".
+fn g9(tier: Tier) -> Vec<Case> {
+    let mut out = vec![];
+    for (k, case) in g1(tier).into_iter().enumerate() {
+        // quick: the depth-1 expressions; thorough: those and every 10th depth-2 expression
+        if case.name.contains(":logic#") || (!case.name.contains(":d1#") && (tier == Tier::Quick || k % 10 != 0)) {
+            continue;
+        }
+        let t = case.params[0].clone();
+        let Ex::Block(_, Some(e)) = &case.prog.funcs[0].body else { continue };
+        let d = dom(&t);
+        // thorough: one program per first operand; quick: first operands {MIN-ish, middle, MAX-ish}
+        let firsts: Vec<&BigInt> = if tier == Tier::Quick { vec![&d[0], &d[d.len() / 2], &d[d.len() - 1]] } else { d.iter().collect() };
+        for (ai, va) in firsts.into_iter().enumerate() {
+            let mut consts = String::new();
+            let mut names = vec![];
+            let mut ref_elems = vec![];
+            for (bi, vb) in d.iter().enumerate() {
+                let mut ev = Evaluator { prog: &case.prog, steps: 0, max_steps: 10_000 };
+                if ev.call("f", vec![to_v(&t, va), to_v(&t, vb)]).is_err() {
+                    // a panicking expression must be refused at compile time: C07 judges that
+                    continue;
+                }
+                let (an, bn, cn) = (format!("A{bi}"), format!("B{bi}"), format!("C{bi}"));
+                let tn = t.name();
+                consts.push_str(&format!("const {an}: {tn} = {};\nconst {bn}: {tn} = {};\nconst {cn}: {tn} = {};\n", pe(&Ex::Lit(t.clone(), va.clone())), pe(&Ex::Lit(t.clone(), vb.clone())), pe(&subst(e, &an, &bn))));
+                names.push(cn);
+                ref_elems.push(blk(vec![St::Let("a".into(), false, None, Ex::Lit(t.clone(), va.clone())), St::Let("b".into(), false, None, Ex::Lit(t.clone(), vb.clone()))], Some((**e).clone())));
+            }
+            if names.is_empty() {
+                continue;
+            }
+            let ret = T::Tup(vec![t.clone(); names.len()]);
+            let tuple_text = if names.len() == 1 { format!("({},)", names[0]) } else { format!("({})", names.join(", ")) };
+            let src = format!("{consts}fn f() -> {} {{ {tuple_text} }}\n", ret.name());
+            out.push(Case {
+                name: format!("g9:{}#{ai}", case.name),
+                prog: Prog { funcs: vec![Func { name: "f".into(), params: vec![], ret, body: blk(vec![], Some(Ex::Tuple(ref_elems))) }] },
+                params: vec![],
+                src: Some(src),
+            });
+        }
+    }
+    out
+}
+
 pub fn all_cases(tier: Tier) -> Vec<Case> {
     // smallest and most recently added families first: a capped run still covers them
     let mut v = vec![];
     v.extend(g8(tier));
+    v.extend(g9(tier));
     v.extend(g6(tier));
     v.extend(g3(tier));
     v.extend(g5(tier));
@@ -762,7 +824,7 @@ fn run_all_and_probes(ctx: &mut Ctx) {
 pub static C01: CheckDef = CheckDef {
     id: "C01",
     level: "exploration",
-    rule: "MiniCairo families, each enumerated completely up to its bound (quick runs every second program of G1 and G2): G1 expression trees of depth <=2 over + - * / % on u8, i8, felt252 (thorough adds u32, u128) with leaves {a, b, literals}, plus comparison/short-circuit guards of a panicking operand (evaluation order is observable through which panic fires); G2 control skeletons: nestings of depth <=2 of if / match-on-integer / while / for / loop-with-break with a 4-condition menu and a 6-effect menu (accumulate, mix, array append, early return, panic, checked subtract) plus break/continue; G3 data movement: 6 producers (struct, tuple, enum, Option, nested tuple, non-copy struct with an array) x consumers (field access, destructuring, copy, snapshot/desnap, match, unwrap, through a call); G4 every sequence of length <=2 (thorough <=3) over 23 array/dict operations (append v, pop_front, get i, at i, len, dict insert k v, dict get k; v,k,i in {0,1,2}); G5 every subset of 4 variables live across a call / a branch merge / a loop back-edge / two calls; G6 member routing: a tuple of arity 2 / 3 is destructured and a tuple of the same type rebuilt from the parts under every routing map positions->members (4 / 27 maps: all permutations and duplications) in the contexts direct, behind one call, behind two calls, one arm of a branch whose other arm is the identity, nested in an outer tuple, plus the type-correct routings of a struct with differently typed members. G8 operator precedence and associativity: expressions printed WITHOUT parentheses - every pair (thorough: triple) of integer operators, an integer operator on either side of each comparison, every pair of boolean operators over plain and negated operands, equalities next to boolean / bitwise operators, comparisons joined by && / || - whose denoted tree is built by a precedence climber written from the language reference; G7 25 feature probes outside the MiniCairo AST with hand-derived closed forms (derived PartialEq/Serde/Default/Clone, closures, if-let/while-let/let-else, ref parameters and member assignment, Option/Result combinators and `?`, evaluation order of arguments/tuple/struct members, loops with break values and continue, nested matches, shadowing/snapshots, trait dispatch with default methods, assertion panic data, ByteArray, early returns, generics, dict last-write-wins, spans, nested destructuring, compound assignment). Each program is compiled with the default configuration and with optimisations disabled and run on the full cross product of B(T) (u8: {0,1,2,127,128,254,255}; i8: {-128,-127,-1,0,1,126,127}; felt252: {0,1,2,-1,-2,2^128}). Oracle: result felts == reference evaluator's value, or panic data == the evaluator's panic data, exactly. distinct_nontrivial = distinct program texts.",
+    rule: "MiniCairo families, each enumerated completely up to its bound (quick runs every second program of G1 and G2): G1 expression trees of depth <=2 over + - * / % on u8, i8, felt252 (thorough adds u32, u128) with leaves {a, b, literals}, plus comparison/short-circuit guards of a panicking operand (evaluation order is observable through which panic fires); G2 control skeletons: nestings of depth <=2 of if / match-on-integer / while / for / loop-with-break with a 4-condition menu and a 6-effect menu (accumulate, mix, array append, early return, panic, checked subtract) plus break/continue; G3 data movement: 6 producers (struct, tuple, enum, Option, nested tuple, non-copy struct with an array) x consumers (field access, destructuring, copy, snapshot/desnap, match, unwrap, through a call); G4 every sequence of length <=2 (thorough <=3) over 23 array/dict operations (append v, pop_front, get i, at i, len, dict insert k v, dict get k; v,k,i in {0,1,2}); G5 every subset of 4 variables live across a call / a branch merge / a loop back-edge / two calls; G6 member routing: a tuple of arity 2 / 3 is destructured and a tuple of the same type rebuilt from the parts under every routing map positions->members (4 / 27 maps: all permutations and duplications) in the contexts direct, behind one call, behind two calls, one arm of a branch whose other arm is the identity, nested in an outer tuple, plus the type-correct routings of a struct with differently typed members. G8 operator precedence and associativity: expressions printed WITHOUT parentheses - every pair (thorough: triple) of integer operators, an integer operator on either side of each comparison, every pair of boolean operators over plain and negated operands, equalities next to boolean / bitwise operators, comparisons joined by && / || - whose denoted tree is built by a precedence climber written from the language reference; G9 const items: every G1 arithmetic expression (quick: depth 1; thorough: plus every 10th of depth 2) with both operands replaced by `const` items over B(T) x B(T) for which the reference yields a value, read back through `const C_i: T = e[A_i, B_i]; fn f() -> (T, ...) { (C_0, C_1, ...) }` (pairs on which the reference panics must be compile errors: judged by C07); G7 25 feature probes outside the MiniCairo AST with hand-derived closed forms (derived PartialEq/Serde/Default/Clone, closures, if-let/while-let/let-else, ref parameters and member assignment, Option/Result combinators and `?`, evaluation order of arguments/tuple/struct members, loops with break values and continue, nested matches, shadowing/snapshots, trait dispatch with default methods, assertion panic data, ByteArray, early returns, generics, dict last-write-wins, spans, nested destructuring, compound assignment). Each program is compiled with the default configuration and with optimisations disabled and run on the full cross product of B(T) (u8: {0,1,2,127,128,254,255}; i8: {-128,-127,-1,0,1,126,127}; felt252: {0,1,2,-1,-2,2^128}). Oracle: result felts == reference evaluator's value, or panic data == the evaluator's panic data, exactly. distinct_nontrivial = distinct program texts.",
     assumptions: &["the reference evaluator (mini.rs) is the specification for the modelled subset: checked integer arithmetic with the corelib panic strings, left-to-right evaluation, short-circuit && ||, truncating signed division", "programs outside MiniCairo are only covered differentially (C05)"],
     run: run_all_and_probes,
     stack_mb: 32,
